@@ -21,9 +21,9 @@ type c07Client struct {
 }
 
 type C07Case struct {
-	Buflen  int             `json:"buflen"`
-	Clients []c07Client     `json:"clients"`
-	Sched   simrt.Schedule  `json:"sched"`
+	Buflen  int            `json:"buflen"`
+	Clients []c07Client    `json:"clients"`
+	Sched   simrt.Schedule `json:"sched"`
 }
 
 type c07Engine struct{}
